@@ -167,9 +167,10 @@ class Check(core.PropertyCheck):
                                          "cutseed": rng.randrange(1 << 30)}, predicted=self.drift_view(pred), source="simulate")
                 continue
             behs = g.edge_cover(ctx.rng, max_len=40, tail=8)
-            behs += g.random_walks(ctx.rng, 150 if ctx.quick else 1500, 30)
-            if ctx.quick and len(behs) > 700:
-                behs = ctx.rng.sample(behs, 700)
+            behs += g.random_walks(ctx.rng, 150 if ctx.quick else 800, 30)
+            cap = 700 if ctx.quick else 4000
+            if len(behs) > cap:
+                behs = ctx.rng.sample(behs, cap)
             for b in behs:
                 ops = self._ops(b, rng)
                 pred = core.predicted_events(b)
